@@ -91,6 +91,11 @@ theorem bundle_readable (imgs appended : List Entry) (hne : imgs ≠ []) :
     ∃ bs, Impl.bundle imgs appended = some bs ∧ readArchive bs = some (imgs ++ appended) := by
   refine ⟨_, bundle_layout Impl.newOffset append_offset imgs appended hne, readArchive_written _⟩
 
+/-- the single-image tarball (`v1tar.WriteToFile`: entries, then `Close`) and any other archive a
+tar writer closes is read to its end, entry for entry, whatever the number and sizes of the entries -/
+theorem image_tarball_readable (entries : List Entry) : readArchive (encAll entries ++ trailer) = some entries :=
+  readArchive_written entries
+
 theorem impl_bundle_eq_spec (imgs appended : List Entry) : Impl.bundle imgs appended = Spec.bundle imgs appended := by
   unfold Impl.bundle Spec.bundle
   have : Impl.newOffset = fun p s => Spec.nextBoundary (p + s) := by
@@ -276,6 +281,10 @@ theorem bundle_complete (imgs : List (Text × Nat)) (hsub : ∀ p ∈ imgs, p.1 
     have := suffix_table.2 p.1 (hsub p hp) p'.1 (hsub p' hp') hs
     have e := eq_of_key_eq hnd hp hp' this
     rw [e]
+
+/-- the hypotheses of `bundle_complete` hold for the configuration that failed on the pinned tree -/
+example := bundle_complete [("amd64".toList, 0), ("arm/v6".toList, 1), ("arm/v7".toList, 2)]
+  (by decide) (by decide) ["img:latest".toList, "img:v1".toList] (by decide)
 
 /-- F12b witness: with the pinned suffix the bundle for {amd64, arm/v6, arm/v7} misses an image -/
 theorem pinned_bundle_incomplete :
